@@ -428,6 +428,11 @@ const EXPRS: &[&str] = &[
     "p(/* ) */ q)",
     "s.replace(\"}\", \"{\")",
     "vec![1, 2]",
+    // template syntax inside a string literal of a fragment is Rust text, not template syntax
+    "\"@* draft *@\"",
+    "\"@*\"",
+    "t.contains(\"@*\")",
+    "\"*@ @{ @@\"",
     // fragments spanning several lines: line breaks, indentation and blank lines inside a string
     // literal or a group are part of the fragment
     "\"Usage:\n    prog [options]\n\n      -v   verbose\"",
